@@ -27,7 +27,9 @@
        native word (DUMP) are judged like a read issued at the end of time: "exactly the addressed beats".
      * one B per write burst, carrying its ID, same-ID responses in order (AXI) and -- the bridge documents "no
        reordering" -- in AW order; not before all W beats of the burst were accepted (AXI) and not before the memory took
-       the data of its last beat (n-th native WDATA handshake belongs to the n-th AXI write beat).
+       the data of its last beat AND accepted that beat's write command (the n-th native WDATA handshake and the n-th
+       native write command belong to the n-th AXI write beat; a FIFO-like native side may take data before the command,
+       a controller-like one takes the command first: "handed to the memory" needs both).
      * R beats: bursts in AR order, len+1 beats, each with the burst's ID, RLAST exactly on the last; data checked on the
        active byte lanes of the beat (all lanes for full-width beats).
    Environment assumptions (clauses starting with "ENV:" -- a driver error, never a verdict): legal burst headers, WLAST
@@ -72,7 +74,7 @@ InitAxi(cfg) == [ init |-> <<>>,     \* native word -> initial bytes
                   wq   |-> <<>>,     \* accepted W beats whose AW has not been accepted yet
                   bq   |-> <<>>,     \* write bursts without a response so far [bn, id, kend]
                   arq  |-> <<>>,     \* read bursts not yet complete [id, addr, len, size, burst, t0, n]
-                  naw  |-> 0, nar |-> 0, kann |-> 0, kw |-> 0, nwd |-> 0,
+                  naw  |-> 0, nar |-> 0, kann |-> 0, kw |-> 0, nwd |-> 0, ncw |-> 0,
                   nR |-> 0, nRacy |-> 0, nOrdered |-> 0, nB |-> 0, nDump |-> 0 ]
 
 \* ---------------------------------------------------------------------------------------------- memory semantics
@@ -146,6 +148,8 @@ AxiStep(cfg, s, e) ==      \* returns [s |-> new state, bad |-> set of diagnosti
                                THEN {<<"B response before the last W beat of the burst was accepted", b.bn>>} ELSE {})
                          \cup (IF s.nwd < b.kend
                                THEN {<<"B response before the data of the burst was handed to the memory", b.bn, s.nwd, b.kend>>} ELSE {})
+                         \cup (IF s.ncw < b.kend
+                               THEN {<<"B response before the write command of the burst's last beat was accepted by the memory", b.bn, s.ncw, b.kend>>} ELSE {})
                          \cup (IF e.resp = 0 THEN {} ELSE {<<"B response not OKAY", b.bn, e.resp>>})]
     [] e.c = "R" ->
         IF s.arq = <<>> THEN [s |-> s, bad |-> {<<"R beat with no outstanding read burst", e.id>>}]
@@ -172,6 +176,7 @@ AxiStep(cfg, s, e) ==      \* returns [s |-> new state, bad |-> set of diagnosti
     [] e.c = "BCHG" -> [s |-> s, bad |-> {<<"B payload changed while BVALID was waiting for BREADY">>}]
     [] e.c = "RCHG" -> [s |-> s, bad |-> {<<"R payload changed while RVALID was waiting for RREADY">>}]
     [] e.c = "WDATA" -> [s |-> [s EXCEPT !.nwd = s.nwd + 1], bad |-> {}]
+    [] e.c = "CMD" -> [s |-> IF e.we THEN [s EXCEPT !.ncw = s.ncw + 1] ELSE s, bad |-> {}]
     [] e.c = "WDROP" -> [s |-> s, bad |-> {<<"native write-data strobe while the bridge offered no write data (data slot lost)">>}]
     [] e.c = "RDROP" -> [s |-> s, bad |-> {<<"native read data returned while the bridge was not ready (word lost)">>}]
     [] e.c = "END" ->
